@@ -24,6 +24,9 @@ type Method struct {
 	Name string
 	Fn   any
 	Twin any // C07: the infallible twin
+	// SkipCopy (C04): skipCopySameType is in effect for this method (converter level or on
+	// the method itself): sharing is allowed, but only at identical-type positions.
+	SkipCopy bool
 }
 
 // World describes the world to the generic harness.
@@ -283,7 +286,7 @@ func execC04(rt *rapid.T, w *World, m Method) {
 		src := sources[srcOf(i)]
 		sr, rr := Regions(src), Regions(results[i])
 		if a, b := Overlap(sr, rr); a != nil {
-			if !w.SkipCopy {
+			if !m.SkipCopy {
 				rt.Fatalf("C04 shared-memory: source%s and result%s share memory (%s %s)", a.Path, b.Path, a.Kind, a.Type)
 			}
 			// skipCopySameType: sharing only where the types are identical
@@ -305,7 +308,7 @@ func execC04(rt *rapid.T, w *World, m Method) {
 			}
 		}
 	}
-	if w.SkipCopy {
+	if m.SkipCopy {
 		Count("c04.skipcopy_executions", 1)
 		if shared > 0 {
 			Count("c04.skipcopy_executions_with_sharing", 1)
